@@ -21,6 +21,22 @@ func runC20(c *Cfg) {
 		c20Probe(c, c20ReadDir(strings.TrimPrefix(c.Replay, "dir:")))
 		return
 	}
+	if strings.HasPrefix(c.Replay, "cli:") {
+		// remaining command line after "--" = the cue arguments
+		args := []string{}
+		for i, a := range os.Args {
+			if a == "--" {
+				args = os.Args[i+1:]
+				break
+			}
+		}
+		c20CLIChild(strings.TrimPrefix(c.Replay, "cli:"), args)
+		return
+	}
+	if strings.HasPrefix(c.Replay, "worker:") {
+		c20Worker(strings.TrimPrefix(c.Replay, "worker:"))
+		return
+	}
 	root := NewRng(c.Seed).Sub()
 	c20Witnesses(c)
 	c20FlatFamily(c, root.Sub())
